@@ -226,10 +226,15 @@ fn probe_dump(a: &EmmyLuaAnalysis, probe_path: &str, reqs: &[String]) -> Value {
     for el in tree.get_red_root().descendants_with_tokens() {
         if let rowan::NodeOrToken::Token(tok) = el {
             let k: LuaTokenKind = tok.kind().into();
-            if k == LuaTokenKind::TkName && tok.text().starts_with('r') && !names.contains_key(tok.text()) && tok.text() != "require" {
-                let t = model.get_semantic_info(tok.clone().into()).map(|i| ty(a, &i.typ)).unwrap_or("-".into());
-                let d = model.find_decl(tok.clone().into(), SemanticDeclLevel::Trace(5)).map(|d| decl_label(a, &d));
-                names.insert(tok.text().to_string(), (t, d));
+            if k == LuaTokenKind::TkName && tok.text().starts_with('r') && tok.text() != "require" {
+                // first occurrence = the declaration (inferred type); later occurrence = a use of the name:
+                // what go-to-definition on it reaches when it follows the require call into the module
+                if let Some(e) = names.get_mut(tok.text()) {
+                    e.1 = model.find_decl(tok.clone().into(), SemanticDeclLevel::Trace(5)).map(|d| decl_label(a, &d));
+                } else {
+                    let t = model.get_semantic_info(tok.clone().into()).map(|i| ty(a, &i.typ)).unwrap_or("-".into());
+                    names.insert(tok.text().to_string(), (t, None));
+                }
             }
         }
     }
@@ -576,7 +581,7 @@ fn run_case(case: &Value, dump_all: bool) -> Value {
             }
             if let Some(pp) = &probe_path {
                 // re-analyse the probe against the current module index
-                let text: String = probe_reqs.iter().enumerate().map(|(i, r)| format!("local r{i} = require(\"{r}\")\n")).collect();
+                let text: String = probe_reqs.iter().enumerate().map(|(i, r)| format!("local r{i} = require(\"{r}\")\nlocal u{i} = r{i}\n")).collect();
                 a.update_file_by_uri(&uri(pp), Some(text));
                 dump_with(&a, &requires, Some((pp.as_str(), &probe_reqs)))
             } else {
